@@ -100,7 +100,7 @@ GroupOut(L, l) ==
 
 (* one body of `while True`: the double loop, then `if len(sym_list) == lenold: break` *)
 Pass == /\ pc = "gen"
-        /\ LET L2 == ClosurePass(G) IN
+        /\ \E L2 \in {ClosurePass(G)} :             \* bound once (a LET would be re-evaluated at every mention)
              /\ G' = L2 /\ npass' = npass + 1
              /\ IF Len(L2) = Len(G) THEN pc' = "group" /\ out' = GroupOut(L2, lat) ELSE pc' = "gen" /\ out' = out
         /\ UNCHANGED <<lat, gens, inp>>
